@@ -12,7 +12,7 @@
    dynamic run yields a row.  DeterminismProof.c15_counterexample is that witness, evaluated in
    Coq; C15_static_equals_dynamic carries the hypothesis `no_unknown` that excludes exactly it. *)
 From DTR Require Import Prelude I64 Ast FramedMap Lexer Parser Bind Eval Stmt Iter Script Static WfSpec.
-From DTR.proofs Require Import LexerProof ParserProof ParserLinesProof ParserLayoutProof ParserBlankLineProof IterLogProof NoPanicProof DeterminismProof.
+From DTR.proofs Require Import LexerProof ParserProof ParserLinesProof ParserLayoutProof ParserBlankLineProof IterLogProof NoPanicProof DeterminismProof RunRefineE DeterminismProofE.
 Local Open Scope nat_scope.
 
 (* parsing is a function of the text: whatever orders the three HashMaps of the parser are iterated in (sh1 sh2 sh3: arbitrary permutations), the result is the same - signals, row entries, reads, virtual signals in the same order *)
@@ -132,8 +132,107 @@ Theorem C15_static_rows_cover_dynamic :
   map static_row (view_rows (fst (collect G DE D w_default tc fuel n st'))) ++ rest.
 Proof. exact C15_static_rows_cover_dynamic. Qed.
 
+(* WITH virtual (declared) signals: the two constructors start in related states (strel_v: virtual positions carry the same expression on both sides) ... *)
+Theorem C15_static_dynamic_start_with_virtuals :
+  forall (tc : testcase) (DE : Type) (D : driver DE) (st st' : istate),
+  try_iter_static tc = StaticOk st -> try_new DE D tc = NewOk DE st' -> strel_v st st'.
+Proof. exact C15_static_dynamic_start_v. Qed.
+
+(* ... and the static iterator previews every dynamic run item by item, without the hypothesis no_virtual; sim_items_v differs from sim_items in one clause: where the dynamic run has a device failure the static run has a row OR an evaluation error of a declared signal (evaluated on the empty answer) *)
+Theorem C15_static_equals_dynamic_with_virtuals :
+  forall (G : gen) (tc : testcase) (DE : Type) (D : driver DE) (w_default : bool) 
+  (fuel n : nat) (st st' : istate) (items_s : list (item_view N)) (end_s : istate),
+  try_iter_static tc = StaticOk st ->
+  try_new DE D tc = NewOk DE st' ->
+  collect G N static_driver true tc fuel n st = (items_s, Some end_s) ->
+  no_unknown items_s -> sim_items_v items_s (fst (collect G DE D w_default tc fuel n st')).
+Proof. exact C15_static_equals_dynamic_v. Qed.
+
+(* that clause is needed: with sim_items itself the statement is false (witness: `A / declare v = 1/0; / 1` and a device that fails at the first row - static: DivisionByZero, dynamic: the driver's error) *)
+Theorem C15_literal_statement_refuted_with_virtuals :
+  ~
+  (forall (G : gen) (tc : testcase) (DE : Type) (D : driver DE) (w_default : bool)
+  (fuel n : nat) (st st' : istate) (items_s : list (item_view N)) (end_s : istate),
+  try_iter_static tc = StaticOk st ->
+  try_new DE D tc = NewOk DE st' ->
+  collect G N static_driver true tc fuel n st = (items_s, Some end_s) ->
+  no_unknown items_s -> sim_items items_s (fst (collect G DE D w_default tc fuel n st'))).
+Proof. exact C15_static_equals_dynamic_v_refuted. Qed.
+
+(* when the static run has no error item the original relation holds *)
+Theorem C15_static_equals_dynamic_with_virtuals_rows_only :
+  forall (G : gen) (tc : testcase) (DE : Type) (D : driver DE) (w_default : bool) 
+  (fuel n : nat) (st st' : istate) (items_s : list (item_view N)) (end_s : istate),
+  try_iter_static tc = StaticOk st ->
+  try_new DE D tc = NewOk DE st' ->
+  collect G N static_driver true tc fuel n st = (items_s, Some end_s) ->
+  (forall e : ierr N, ~ In (VErr e) items_s) ->
+  sim_items items_s (fst (collect G DE D w_default tc fuel n st')).
+Proof. exact C15_static_equals_dynamic_v_rows_only. Qed.
+
+(* the rows-cover corollary without no_virtual *)
+Theorem C15_static_rows_cover_dynamic_with_virtuals :
+  forall (G : gen) (tc : testcase) (DE : Type) (D : driver DE) (w_default : bool) 
+  (fuel n : nat) (st st' : istate) (items_s : list (item_view N)) (end_s : istate),
+  try_iter_static tc = StaticOk st ->
+  try_new DE D tc = NewOk DE st' ->
+  collect G N static_driver true tc fuel n st = (items_s, Some end_s) ->
+  no_unknown items_s ->
+  exists rest : list static_data_row,
+  map static_row (view_rows items_s) =
+  map static_row (view_rows (fst (collect G DE D w_default tc fuel n st'))) ++ rest.
+Proof. exact C15_static_rows_cover_dynamic_v. Qed.
+
+(* a caller that keeps calling next() after error items: the preview continues through evaluation errors (same error on both sides) and stops at a device failure *)
+Theorem C15_static_equals_dynamic_through_errors :
+  forall (G : gen) (tc : testcase) (DE : Type) (D : driver DE) (w_default : bool) 
+  (fuel n : nat) (st st' : istate) (items_s : list (item_view N)) (end_s : istate),
+  try_iter_static tc = StaticOk st ->
+  try_new DE D tc = NewOk DE st' ->
+  collect_e G N static_driver true tc fuel n st = (items_s, Some end_s) ->
+  no_unknown items_s -> sim_items_e false items_s (fst (collect_e G DE D w_default tc fuel n st')).
+Proof. exact C15_static_equals_dynamic_e. Qed.
+
+(* it continues even through device failures / unusable answers when no declared signal draws random numbers *)
+Theorem C15_static_equals_dynamic_through_device_failures :
+  forall (G : gen) (tc : testcase) (DE : Type) (D : driver DE) (w_default : bool) 
+  (fuel n : nat) (st st' : istate) (items_s : list (item_view N)) (end_s : istate),
+  virtuals_no_random tc ->
+  try_iter_static tc = StaticOk st ->
+  try_new DE D tc = NewOk DE st' ->
+  collect_e G N static_driver true tc fuel n st = (items_s, Some end_s) ->
+  no_unknown items_s -> sim_items_e true items_s (fst (collect_e G DE D w_default tc fuel n st')).
+Proof. exact C15_static_equals_dynamic_ee. Qed.
+
+(* that restriction is needed (witness: `declare v = random(10);` - after a failed call the static run has drawn for v, the dynamic run has not; values drawn by random are exempt in the property) *)
+Theorem C15_through_device_failures_needs_no_random :
+  ~
+  (forall (G : gen) (tc : testcase) (DE : Type) (D : driver DE) (w_default : bool)
+  (fuel n : nat) (st st' : istate) (items_s : list (item_view N)) (end_s : istate),
+  try_iter_static tc = StaticOk st ->
+  try_new DE D tc = NewOk DE st' ->
+  collect_e G N static_driver true tc fuel n st = (items_s, Some end_s) ->
+  no_unknown items_s -> sim_items_e true items_s (fst (collect_e G DE D w_default tc fuel n st'))).
+Proof. exact C15_static_equals_dynamic_ee_needs_no_random. Qed.
+
+(* the general form over related states *)
+Theorem C15_static_previews_dynamic_through_errors :
+  forall (G : gen) (tc : testcase) (DE : Type) (D : driver DE) (w_default go : bool) 
+  (fuel n : nat) (st st' : istate) (items_s : list (item_view N)) (end_s : istate),
+  strel_v st st' ->
+  (go = true -> OutputsProof.no_random_entries (i_outidx st') = true) ->
+  collect_e G N static_driver true tc fuel n st = (items_s, Some end_s) ->
+  no_unknown items_s -> sim_items_e go items_s (fst (collect_e G DE D w_default tc fuel n st')).
+Proof. exact C15_static_previews_dynamic_e_gen. Qed.
+
+
 Check C15_parse_hash_order_independent.
 Print Assumptions C15_parse_hash_order_independent.
 Print Assumptions C15_run_depends_only_on_answers.
 Print Assumptions C15_static_iff_no_reads.
 Print Assumptions C15_static_equals_dynamic.
+Print Assumptions C15_static_equals_dynamic_with_virtuals.
+Print Assumptions C15_literal_statement_refuted_with_virtuals.
+Print Assumptions C15_static_equals_dynamic_through_errors.
+Print Assumptions C15_static_equals_dynamic_through_device_failures.
+Print Assumptions C15_through_device_failures_needs_no_random.
